@@ -57,14 +57,15 @@ REQUIRED = _cpu_required() + ["chunkings_compared", "d64_batches", "tamper_ct_re
 
 
 def runs(tier, seed):
-    m = 1 if tier == "quick" else 60
+    # thorough is scaled to ~15 min on 16 idle cores (DESIGN's 10^7 digests would take hours under ASan + a Python oracle)
+    q = tier == "quick"
     return [
-        Run("c49_hash", cases=6000 * m, timeout=3000),
-        Run("c49_d64", cases=1560 * m, timeout=3000),
-        Run("c49_mac", cases=4000 * m, timeout=3000),
-        Run("c49_cipher", cases=3000 * (m if m == 1 else 20), timeout=3000),
-        Run("c49_aead", cases=2000 * (m if m == 1 else 20), timeout=3000),
-        Run("c49_muhash", cases=400 * (m if m == 1 else 10), timeout=3000),
+        Run("c49_hash", cases=6000 if q else 120000, timeout=3000),
+        Run("c49_d64", cases=1560 if q else 31200, timeout=3000),
+        Run("c49_mac", cases=4000 if q else 80000, timeout=3000),
+        Run("c49_cipher", cases=3000 if q else 30000, timeout=3000),
+        Run("c49_aead", cases=2000 if q else 20000, timeout=3000),
+        Run("c49_muhash", cases=400 if q else 2000, shards=4 if q else 16, timeout=3000),
     ]
 
 
